@@ -65,6 +65,11 @@ def check(run, prog, tier):
     from . import c02
     from ..report import RuleProxy
     c02.rule_M(RuleProxy(run, "C16-K"), prog)
+    run.rule("C16-L", "the reduced density matrices handed out by the hierarchy propagator are of degree one in the initial state "
+                      "(degree analysis, shared with C02-P): unit trace and Hermiticity are kept by the equations, not enforced on "
+                      "the result", minimum=2)
+    c02.rule_P(RuleProxy(run, "C16-L"), prog, rid="C16-L",
+               routines=(("quantarhei.qm.liouvillespace.heom.KTHierarchyPropagator", ("propagate", "_initial_state_in_RWA")),), floor=2)
     run.rule("C16-H", "the hierarchy and its propagator read energies under internal units (reorganisation "
                       "energies, Hamiltonian)", minimum=3)
     from . import intunits
